@@ -136,6 +136,8 @@ def _snapshot_state(ss):
     return {'Tf': ss.dae.Tf.copy(), 'Teye': np.array(_diag(tds.Teye)), 'z': discrete_flags(ss),
             'switch_idx': int(tds._switch_idx), 't': float(ss.dae.t), 'x': ss.dae.x.copy(), 'y': ss.dae.y.copy(),
             'h': float(tds.h), 'deltat': float(tds.deltat), 'names': list(ss.dae.x_name),
+            # dae.f of the last accepted step is the history term f0 of the trapezoidal rule for the next one
+            'f': ss.dae.f.copy(), 'g': ss.dae.g.copy(),
             'not_aliased': _view_alias_ok(ss)}
 
 
@@ -146,7 +148,7 @@ def _diag(sp):
 
 def _cmp_state(a, b):
     bad = []
-    for k in ('Tf', 'Teye', 'z', 'x', 'y'):
+    for k in ('Tf', 'Teye', 'z', 'x', 'y', 'f', 'g'):
         if a[k].shape != b[k].shape or not np.array_equal(a[k], b[k]):
             bad.append(k)
     for k in ('switch_idx', 't', 'h', 'deltat'):
